@@ -68,6 +68,22 @@ fn elem_bytes(rng: &mut StdRng, pool: &Pool, nlimbs: usize) -> Vec<u8> {
 /// algebraically special elements: roots of unity of the base field embedded in F_q^12, and elements of relative norm one
 /// over a subfield, x = y^(q^k - 1) (k = 1, 2, 3, 4, 6), which are NOT in general unitary or cyclotomic
 fn special(rng: &mut StdRng, pool: &Pool) -> Vec<u8> {
+    if rng.gen_range(0..2) == 0 {
+        // near-one: the element 1 (or -1, or 0) with ONE other F_q^2 component non-zero - shares components with a special constant
+        let mut v = vec![0u8; 384];
+        let c = match rng.gen_range(0..4) { 0 | 1 => sm9_core::Fq::one(), 2 => -sm9_core::Fq::one(), _ => sm9_core::Fq::zero() };
+        v[352..384].copy_from_slice(&c.to_slice());
+        let comp = rng.gen_range(0..6);                 // which F_q^2 component (6 of them, 64 bytes each)
+        let l0 = limb(rng, pool, false);
+        let l1 = if rng.gen() { limb(rng, pool, false) } else { vec![0u8; 32] };
+        if comp == 5 {
+            v[320..352].copy_from_slice(&l0);           // the imaginary part of the constant term
+        } else {
+            v[64 * comp..64 * comp + 32].copy_from_slice(&l0);
+            v[64 * comp + 32..64 * comp + 64].copy_from_slice(&l1);
+        }
+        return v;
+    }
     if rng.gen_range(0..3) == 0 {
         let w = crate::grp::cube_root_of_unity();
         let c = match rng.gen_range(0..4) { 0 => w, 1 => w * w, 2 => -sm9_core::Fq::one(), _ => -w };
@@ -107,8 +123,8 @@ pub fn run(a: &Args, out: &mut Out) {
         // operand classes are drawn independently of the operation (k): unitary (pairing values) 1 in 5, else random / sparse / subfield
         let xa = match rng.gen_range(0..10) { 0 | 1 => unitary(&mut rng, &poolr), 2 | 3 => special(&mut rng, &poolq), _ => elem_bytes(&mut rng, &poolq, 12) };
         let xb = if rng.gen_range(0..7) == 0 { unitary(&mut rng, &poolr) } else { elem_bytes(&mut rng, &poolq, 12) };
-        // inversion and the final exponentiations see the algebraically special elements half of the time
-        let xa = if (k % 10 == 2 || k % 10 == 8) && rng.gen::<bool>() { special(&mut rng, &poolq) } else { xa };
+        // inversion, powering, sparse multiplication and the final exponentiations see the special elements half of the time
+        let xa = if [0, 2, 4, 5, 8].contains(&(k % 10)) && rng.gen::<bool>() { special(&mut rng, &poolq) } else { xa };
         let (fa, fb) = (fq12_from(&xa), fq12_from(&xb));
         match k % 10 {
             0 | 1 => {
